@@ -187,7 +187,9 @@ def showPub (p : Pub) : String :=
 def handle (st : DriverC01.St) (l : Line) : Option (DriverC01.St × List String × Option String) := do
   match l.outcome.splitOn " wmaps=" with
   | [val, wm] =>
-    let (st', acc, note) ← DriverC01.handle st { l with outcome := val }
+    -- `async_subset`: the value of `retrieve_array_subset`; its buffers are judged by tiling only
+    let lv := if l.verbs[2]? == some "async_subset" then { l with verbs := l.verbs.set 2 "retrieve_array_subset" } else l
+    let (st', acc, note) ← DriverC01.handle st { lv with outcome := val }
     let ms ← if wm == "-" then pure [] else (wm.splitOn ";").mapM parseMap
     let bad := ms.filter (fun m => !tiles m.1 m.2)
     if !bad.isEmpty then
